@@ -2,12 +2,18 @@
 """Copies confirmed seeded defects from /tmp/seed_out into /verif/seeded/<PID>-mN/ with meta.json and
 (re)writes /verif/seeded/RESULTS.md from the eval.json files. usage: collect_seeded.py [src_root]"""
 import json, os, shutil, sys
-src = sys.argv[1] if len(sys.argv) > 1 else "/tmp/seed_out"
+srcs = sys.argv[1:] or ["/tmp/seed_out", "/tmp/seed_out2"]
 dst = "/verif/seeded"
 os.makedirs(dst, exist_ok=True)
 rows = []
-for pid in sorted(os.listdir(src)):
-    for m in ("m1", "m2", "m3"):
+pairs = []
+for src in srcs:
+    for pid in sorted(os.listdir(src)):
+        for m in ("m1", "m2", "m3"):
+            pairs.append((src, pid, m))
+pairs.sort(key=lambda t: (t[1], t[2]))
+for src, pid, m in pairs:
+    if True:
         d = os.path.join(src, pid, m)
         ev = os.path.join(d, "eval.json")
         if not os.path.exists(ev):
@@ -42,5 +48,8 @@ with open(os.path.join(dst, "RESULTS.md"), "w") as f:
     for r in rows:
         f.write("| %s | %s | %s | %s | %s | %s | %s | %s |\n" % (r[0], r[1], r[2], r[3], r[4], r[5], r[6].replace("|", "/"), "; ".join(r[7])))
     n = sum(1 for r in rows if r[2]); k = sum(1 for r in rows if r[2] and r[3])
-    f.write("\nConfirmed changes: %d; detected by the property's check: %d.\n" % (n, k))
+    f.write("\nConfirmed changes: %d; detected by the property's check (final state): %d.\n" % (n, k))
+    first = sum(1 for r in rows if r[2] and r[7] and "DETECTED" in r[7][0]) + sum(1 for r in rows if r[2] and r[7] and len(r[7]) == 1 and "DETECTED" in r[7][0] and False)
+    f.write("\nHistory column: the first entry is the verdict of the check as it was *before the change was seen* "
+            "(m1/m2: first-built checks; m3: checks after the first strengthening round); later entries are re-runs after strengthening.\n")
 print("rows", len(rows))
